@@ -20,6 +20,7 @@ pristine snapshot; inside a scope Quantity(1, <custom>) works for every open sco
 Four parts:
   graph   state-pruned BFS of the whole state graph (state = canonical tables + stack of open scopes), nesting <= 3:
           every operation of the alphabet (all fault kinds, every unwinding distance) is applied in every state
+          (quick: the innermost of three scopes is opened as with-block only; thorough: both styles)
   hist    un-pruned histories (non-initial states, re-used definition dicts), deviation-ordered by the number of
           failing steps (0, 1, 2): full alphabet to length LF, a core alphabet to length LC
   cycles  three consecutive open/close or failing cycles (repeated open/close of the same set)
@@ -47,6 +48,9 @@ ASSUMPTIONS = [
     "mc/isolation.py, UNIT_TYPES compared by class identity) plus new_units/new_types of the open environments",
     "which registrations are *expected* to succeed comes from a static stack model (symbol sets disjoint from the "
     "pristine spelling set and from the enclosing scopes); nothing is demanded about which registrations must fail",
+    "between the start and the end of a history a row object of the pristine tables is identified by its identity; "
+    "its content is compared with a copy taken at start-up at the end of every history (an in-place edit of a "
+    "pristine row that is reverted within the same history would be missed)",
     "non-LIFO closing of explicit environments, closing twice, and leaving an explicit environment open are not "
     "demanded by the statement and are not generated",
     "DIP: success is demanded only for programs whose every line has its units/nodes defined before use; numerical "
@@ -98,7 +102,7 @@ def _build(name):
     if name == "CA":
         return {"Xc": _d(), "Xa": _d()}
     if name == "Q":
-        return {"Xq": Quantity(2, "cm/g2"), "Xr": _d(definition="3*m3", name="my unit")}
+        return {"Xq": Quantity(2, "cm/g2"), "Xr": _d(name="my unit")}
     if name == "T":
         return {"Xi": _d(definition=c["CT1"])}
     if name == "TU":
